@@ -525,6 +525,36 @@ func runC17(c *Ctx) {
 			if len(o.goJ.Errs) == 0 && o.goJ.Policy == nil {
 				c.Violate(Finding{Desc: "configuration passes validation but ToPolicy fails", Key: "validate-topolicy", Input: in})
 			}
+			// "exemption entries are ... unique": a repeated entry must be reported, wherever its first occurrence stands
+			for _, list := range []string{"namespaces", "usernames", "runtimeClasses"} {
+				entries, _ := o.goJ.Cfg[list].([]string)
+				suffix := strings.ToLower(list[:1]) + list[1:]
+				invalidAt := map[int]bool{} // a malformed entry is reported as such, not as a duplicate
+				reported := 0
+				for _, e := range o.goJ.Errs {
+					if len(e) == 3 && strings.HasSuffix(fmt.Sprint(e[0]), suffix) {
+						if e[2] == "duplicate" {
+							reported++
+						} else if idx, ok := e[1].(int); ok {
+							invalidAt[idx] = true
+						}
+					}
+				}
+				seen := map[string]bool{}
+				dups := 0
+				for i, e := range entries {
+					if invalidAt[i] {
+						continue
+					}
+					if seen[e] {
+						dups++
+					}
+					seen[e] = true
+				}
+				if dups > 0 && reported == 0 {
+					c.Violate(Finding{Desc: fmt.Sprintf("exemptions.%s repeats an entry (%v) but validation reports no duplicate", list, entries), Key: "duplicate-accepted", Input: in, Go: o.goJ})
+				}
+			}
 			if len(o.goJ.Errs) == 0 && o.goJ.statedMismatch != "" {
 				c.Violate(Finding{Desc: "accepted configuration is not enforced with the default policy it states: " + o.goJ.statedMismatch, Key: "stated-defaults", Input: in, Go: o.goJ})
 			}
